@@ -18,6 +18,7 @@ RULE = ('(a) PCM scenario driver: the real PortfolioConstructionModel on a real 
         'fully sold. Non-trivial: a rebalance with a held asset outside the alpha keys and a new asset; distinct = case.')
 RULE += ' Half of the driver cases rebalance through a real QuantTradingSystem (portfolio construction + ExecutionHandler submitting the orders); a rebalance request that runs no portfolio construction, or raises, is a violation. 30% of the cases start with several positions of exactly the same size.'
 RULE += " After every portfolio construction the broker's holdings report is read before anything is submitted; a construction that records no allocation row is a violation; in sessions every cell of get_target_allocations() must follow the recorded rows (NaN where the asset was not in that rebalance's asset set)."
+RULE += " 30% of the driver cases keep ONE real StaticUniverse object for all rebalances and are judged against the universe as configured. Sessions include a time-varying 'switch' alpha that weights an asset outside the static universe for a while and then drops it (the asset set shrinks)."
 ASSUMPTIONS = ['the target is the sizer\'s own output (its correctness is C10/C11)']
 
 
